@@ -586,69 +586,91 @@ def width_class_rule(ctx, rule):
         else:
             rule.violation(key, "%s does not return the smallest even byte count holding the value (%s): push_lct_header derives the S/O/H flags from bits 1..3 of "
                                 "that count and would drop the top byte(s) of the field" % (short, "; ".join(bad[:2]) or "classes found %s" % sorted(seen)), loc(f.sp))
-    # flags from the counts
+    # flags from the counts (locals are found by what they are, not by how they are called)
     w = prog.fn("common::lct::push_lct_header")
     sl = Slicer(w.body)
     fl = Flow(w.body)
     vd = sl.var_defs()
-    stop = {"tsi_size", "toi_size", "cci_size"}
+    params = {1: None}
+    size_of = {}   # role -> local name
+    for name, ds in vd.items():
+        ds = [d for d in ds if d[0] == ""]
+        if len(ds) == 1 and ds[0][1][0] == "call" and re.search(r"lct::nb_bytes_(64|128)$", ds[0][1][1]):
+            e = ds[0][1]
+            arg0 = re.sub(r"[&*()]", "", show(e[2][0]))
+            role = {"cci": "CCI", "tsi": "TSI", "toi": "TOI"}.get(arg0)
+            fn = e[1].split("::")[-1]
+            want_fn, want_min = {"CCI": ("nb_bytes_128", "0"), "TSI": ("nb_bytes_64", "2"), "TOI": ("nb_bytes_128", "2")}.get(role, (None, None))
+            key = "push_lct_header %s byte count" % (role or arg0)
+            if role and fn == want_fn and show(e[2][1]) == want_min:
+                size_of[role] = name
+                rule.ok(key, "`%s` = %s(%s, %s)" % (name, fn, arg0, want_min), loc(w.sp))
+            else:
+                rule.violation(key, "`%s` = %s; expected %s(%s, %s)" % (name, show(e, 60), want_fn, arg0, want_min), loc(w.sp))
+    for role in ("CCI", "TSI", "TOI"):
+        if role not in size_of:
+            rule.violation("push_lct_header %s byte count" % role, "no local computed with nb_bytes_64/128 from the %s argument" % role.lower(), loc(w.sp))
+    if len(size_of) < 3:
+        return
+    stop = set(size_of.values())
     ev = bits.Eval(leaf_namer=lambda e: show(e, 40))
-
-    def bitsof(name):
-        ds = [d for d in vd.get(name, []) if d[0] == ""]
-        if len(ds) != 1:
-            return None
-        try:
-            return bits.runs(ev.bits(sl.expand(ds[0][1], stop=stop)))
-        except bits.Unknown:
-            return None
 
     def only(rs):
         return [r for r in (rs or []) if not (r[0] == "const" and r[2] == 0)]
-    want = {"s": ("tsi_size", 1, 2), "h_tsi": ("tsi_size", 1, 1), "o": ("toi_size", 2, 2), "h_toi": ("toi_size", 1, 1)}
-    for name, (src, wd, lowbit) in sorted(want.items()):
-        rs = bitsof(name)
+    found = {}
+    want = {"S": (size_of["TSI"], 1, 2), "H_tsi": (size_of["TSI"], 1, 1), "O": (size_of["TOI"], 2, 2), "H_toi": (size_of["TOI"], 1, 1)}
+    for name, ds in vd.items():
+        ds = [d for d in ds if d[0] == ""]
+        if len(ds) != 1 or name in stop:
+            continue
+        try:
+            rs = bits.runs(ev.bits(sl.expand(ds[0][1], stop=stop)))
+        except bits.Unknown:
+            continue
         nz = only(rs)
-        key = "push_lct_header %s" % name
-        ok = rs is not None and len(nz) == 1 and nz[0][0] == "field" and nz[0][1] == wd and nz[0][2] == src and nz[0][3] == lowbit and rs[-1] == nz[0]
-        if ok:
-            rule.ok(key, "= bit%s %s of %s" % ("s" if wd > 1 else "", "%d..%d" % (lowbit + wd - 1, lowbit) if wd > 1 else lowbit, src), loc(w.sp))
+        for role, (src, wd, lowbit) in want.items():
+            if len(nz) == 1 and nz[0][0] == "field" and nz[0][1] == wd and nz[0][2] == src and nz[0][3] == lowbit and rs[-1] == nz[0]:
+                found.setdefault(role, name)
+    for role, (src, wd, lowbit) in sorted(want.items()):
+        key = "push_lct_header %s" % {"S": "s", "O": "o", "H_tsi": "h_tsi", "H_toi": "h_toi"}[role]
+        if role in found:
+            rule.ok(key, "`%s` = bit%s %s of %s" % (found[role], "s" if wd > 1 else "", "%d..%d" % (lowbit + wd - 1, lowbit) if wd > 1 else lowbit, src), loc(w.sp))
         else:
-            rule.violation(key, "`%s` is %s; expected bit%s %d.. of %s (byte count = 4*%s + 2*H)" % (name, rs, "s" if wd > 1 else "", lowbit, src, name.upper()[0]), loc(w.sp))
-    hd = [d for d in vd.get("h", []) if d[0] == ""]
-    if len(hd) == 1 and hd[0][1][0] == "bin" and hd[0][1][1] == "BitOr" and {show(hd[0][1][2]), show(hd[0][1][3])} == {"h_tsi", "h_toi"}:
-        rule.ok("push_lct_header h", "h_tsi | h_toi", loc(w.sp))
+            rule.violation(key, "no local equals bit%s %d.. of %s (byte count = 4*%s + 2*H): the flag is derived differently" % ("s" if wd > 1 else "", lowbit, src, role[0]), loc(w.sp))
+    hok = False
+    for name, ds in vd.items():
+        ds = [d for d in ds if d[0] == ""]
+        if len(ds) == 1 and ds[0][1][0] == "bin" and ds[0][1][1] == "BitOr" and {show(ds[0][1][2]), show(ds[0][1][3])} == {found.get("H_tsi"), found.get("H_toi")}:
+            hok = True
+    if hok:
+        rule.ok("push_lct_header h", "H = TSI half-word flag | TOI half-word flag", loc(w.sp))
     else:
-        rule.violation("push_lct_header h", "H = %s; expected h_tsi | h_toi" % [show(d[1], 40) for d in hd], loc(w.sp))
-    # C from the CCI count
-    cd = [d for d in vd.get("c", []) if d[0] == ""]
-    okc = len(cd) == 4
-    seen = set()
-    for (_, e, bb) in cd:
-        k = const_value(e)
-        ub, lb = None, None
-        for (a, t) in fl.facts_at(bb):
-            if a[0] == "le" and t and const_value(a[2]) is not None and "size" in show(a[1]):
-                ub = const_value(a[2]) if ub is None else min(ub, const_value(a[2]))
-            if a[0] == "lt" and t and const_value(a[1]) is not None and "size" in show(a[2]):
-                lb = const_value(a[1]) if lb is None else max(lb, const_value(a[1]))
-        if k is None or (k < 3 and ub != 4 * (k + 1)) or (k > 0 and lb != 4 * k):
-            okc = False
-        else:
+        rule.violation("push_lct_header h", "no local is the OR of the two half-word flags", loc(w.sp))
+    # C from the CCI count: a local with the four constant definitions 0..3, each under its interval of the CCI byte count
+    okc = False
+    for name, ds in vd.items():
+        cd = [d for d in ds if d[0] == ""]
+        if len(cd) != 4 or not all(const_value(d[1]) in (0, 1, 2, 3) for d in cd):
+            continue
+        seen = set()
+        good = True
+        for (_, e, bb) in cd:
+            k = const_value(e)
+            ub, lb = None, None
+            for (a, t) in fl.facts_at(bb):
+                if a[0] == "le" and t and const_value(a[2]) is not None and const_value(a[1]) is None:
+                    ub = const_value(a[2]) if ub is None else min(ub, const_value(a[2]))
+                if a[0] == "lt" and t and const_value(a[1]) is not None and const_value(a[2]) is None:
+                    lb = const_value(a[1]) if lb is None else max(lb, const_value(a[1]))
+            if (k < 3 and ub != 4 * (k + 1)) or (k > 0 and lb != 4 * k):
+                good = False
             seen.add(k)
-    if okc and seen == {0, 1, 2, 3}:
+        if good and seen == {0, 1, 2, 3}:
+            okc = True
+    if okc:
         rule.ok("push_lct_header c", "C = k for 4k < count <= 4(k+1)", loc(w.sp))
     else:
-        rule.violation("push_lct_header c", "C is not the smallest value with 4*(C+1) >= CCI byte count: %s" % [(show(e, 10), bb) for _, e, bb in cd], loc(w.sp))
-    # sizes come from the helpers with the minimum the RFC prescribes
-    for name, (fn, mn) in {"cci_size": ("nb_bytes_128", "0"), "tsi_size": ("nb_bytes_64", "2"), "toi_size": ("nb_bytes_128", "2")}.items():
-        ds = [d for d in vd.get(name, []) if d[0] == ""]
-        e = ds[0][1] if len(ds) == 1 else None
-        arg0 = {"cci_size": "cci", "tsi_size": "tsi", "toi_size": "toi"}[name]
-        if e is not None and e[0] == "call" and e[1].endswith("lct::" + fn) and show(e[2][1]) == mn and re.sub(r"[&*()]", "", show(e[2][0])) == arg0:
-            rule.ok("push_lct_header %s" % name, "%s(%s, %s)" % (fn, arg0, mn), loc(w.sp))
-        else:
-            rule.violation("push_lct_header %s" % name, "%s = %s; expected %s(%s, %s)" % (name, show(e, 60) if e else "?", fn, arg0, mn), loc(w.sp))
+        rule.violation("push_lct_header c", "no local is the smallest C with 4*(C+1) >= CCI byte count", loc(w.sp))
     # get_ext: fixed-length extensions are HET 128..255
     g = prog.fn("common::lct::get_ext")
     gfl = Flow(g.body)
